@@ -44,6 +44,39 @@ func yqlibFrames(skip int) []string {
 	return out
 }
 
+// evalStack: the yqlib function names (innermost first, deduplicated) on the
+// stack of the goroutine that is running opEval, taken from a dump of all
+// goroutines.
+func evalStack() string {
+	buf := make([]byte, 8<<20)
+	n := runtime.Stack(buf, true)
+	var best []string
+	for _, g := range strings.Split(string(buf[:n]), "\n\n") {
+		if !strings.Contains(g, "main.opEval") {
+			continue
+		}
+		seen := map[string]bool{}
+		for _, ln := range strings.Split(g, "\n") {
+			i := strings.Index(ln, "/pkg/yqlib.")
+			if i < 0 || strings.HasPrefix(ln, "\t") {
+				continue
+			}
+			fn := ln[i+len("/pkg/yqlib."):]
+			if j := strings.LastIndex(fn, "("); j > 0 {
+				fn = fn[:j]
+			}
+			if !seen[fn] {
+				seen[fn] = true
+				best = append(best, fn)
+			}
+		}
+	}
+	if len(best) > 12 {
+		best = best[:12]
+	}
+	return strings.Join(best, " < ")
+}
+
 func c11Eval(r Req) (Resp, error) {
 	deadline := time.Duration(r.Int("c11_deadline_ms", 4000)) * time.Millisecond
 	memLimit := uint64(r.Int("c11_mem_mb", 1500)) << 20
@@ -76,12 +109,12 @@ func c11Eval(r Req) (Resp, error) {
 			return resp, nil
 		case <-tick.C:
 			if time.Since(t0) > deadline {
-				fmt.Fprintf(os.Stderr, "\nC11-TIMEOUT after %v\n", deadline)
+				fmt.Fprintf(os.Stderr, "\nC11-TIMEOUT after %v\nC11-STACK %s\n", deadline, evalStack())
 				os.Exit(3)
 			}
 			runtime.ReadMemStats(&ms)
-			if ms.HeapAlloc > memLimit {
-				fmt.Fprintf(os.Stderr, "\nC11-MEMORY heap %d MB after %v\n", ms.HeapAlloc>>20, time.Since(t0))
+			if ms.HeapAlloc+ms.StackInuse > memLimit {
+				fmt.Fprintf(os.Stderr, "\nC11-MEMORY heap %d MB stack %d MB after %v\nC11-STACK %s\n", ms.HeapAlloc>>20, ms.StackInuse>>20, time.Since(t0), evalStack())
 				os.Exit(3)
 			}
 		}
